@@ -7,7 +7,7 @@ from mc.core import Acc
 
 ID = "C19"
 RULE = ("E-FULL: every Unicode scalar value c (1,112,064) in the 4 contexts c, 'a'+c, c+'b', 'a'+c+'b' through the real "
-        "labella.tex.uni2tex; E-INPUT: every string of length <= 4 (thorough <= 5) over a 12 (16) letter alphabet mixing ASCII, "
+        "labella.tex.uni2tex; every ordered pair of the 112 combining diacritical marks U+0300-U+036F on 5 bases with and without a following letter; E-INPUT: every string of length <= 4 (thorough <= 5) over a 12 (16) letter alphabet mixing ASCII, "
         "TeX specials (incl. %, #, $, _), precomposed letters, listed/unlisted combining marks, compatibility characters, CJK, emoji; every string of length <= 2 (thorough <= 3) also as a label text through TimelineTex.export(), read from the \\def\\text lines. Oracle R-UNI: no "
         "exception, ASCII unchanged, accent commands read back as combining marks reproduce the input under NFD. "
         "Non-trivial: the output contains an accent command.")
@@ -45,6 +45,8 @@ def plan(tier, seed):
     for first in range(len(ALPHA12) + len(SPECIALS)):  # label texts through the real TikZ export (length <= 2)
         shards.append({"kind": "tex", "alpha": ALPHA12 + SPECIALS, "nmax": 2, "first": first})
     shards.append({"kind": "fontdoc"})
+    for r in range(8):  # every ordered pair of combining diacritical marks (U+0300-U+036F) on several bases
+        shards.append({"kind": "marks", "mod": 8, "rem": r})
     if tier == "thorough":
         for first in range(len(alpha)):
             shards.append({"kind": "tex", "alpha": alpha, "nmax": 3, "first": first})
@@ -113,6 +115,28 @@ def run_shard(shard):
                 if bad:
                     acc.violation({"text": text, "preamble": preamble, "via": "fontdoc"}, bad[0], bad[1], order=(2, len(text), text))
         acc.sample({"text": text, "preamble": preamble, "via": "fontdoc"})
+        return acc
+    if shard["kind"] == "marks":
+        marks = [chr(c) for c in range(0x300, 0x370)]
+        text = None
+        for i, m1 in enumerate(marks):
+            if i % shard["mod"] != shard["rem"]:
+                continue
+            for m2 in marks:
+                acc.states += 1
+                for base in ("a", "\u00e9", "\u03b1", "xo", "{"):
+                    for tail in ("", "n"):
+                        text = base + m1 + m2 + tail
+                        acc.evals += 1
+                        acc.trans += 1
+                        acc.counters["mark_pair_strings"] += 1
+                        acc.nontriv += 1
+                        bad = uni.check_text(uni2tex, text)
+                        if uni.ambiguous(text):
+                            acc.counters["ambiguous_inputs_skipped"] += 1
+                        if bad:
+                            acc.violation({"text": text}, bad[0], bad[1], order=(1, len(text), text))
+        acc.sample({"text": text})
         return acc
     if shard["kind"] == "cp":
         for cp in range(shard["a"], shard["b"]):
